@@ -1284,7 +1284,7 @@ func init() {
 		Rule: "seeded grammar of programs with 10-60 method bodies over modules, classes, mixins and the top level that call each other forwards and backwards (late calls), use closures with inferred return types, nested closures, switch, generic classes/methods instantiated with different type arguments in different bodies (also with throw types), expression macros, constants (also initialised from method calls, some circular) and 0, 1 or many ill-typed bodies; G-prog programs with 4-11 functions printed in shuffled order as methods; four fixed shapes (all-circular constants, generic throw instantiations with long and short bodies, many ill-typed bodies beside macro expansions, generic overloads). Each program is checked+compiled+run under 8 (thorough: 16) schedules = MethodCheckConcurrencyLimit in {1,2,4,100,..} x start order of concurrent.Foreach (source, reverse, seeded permutation) x seeded yields/sleeps at verif hook points x GOMAXPROCS; oracle: sorted diagnostic multiset (severity, location, message), verdict, checker panics and program output equal to the reference schedule (limit 1, source order); race detector on; distinct = (program, start-order permutation) pairs and (family, verdict, #diagnostics, #bodies) classes",
 		NumCases: func(tier string) int {
 			if tier == "thorough" {
-				return 3000
+				return 300
 			}
 			return 45
 		},
